@@ -304,6 +304,7 @@ impl Prop for C13Prop {
         vec![
             Sub { name: "ws-exhaustive", kind: SubKind::Enum { count: ws_total } },
             Sub { name: "ws-keywords", kind: SubKind::Enum { count: ws_keyword_cases().len() as u64 } },
+            Sub { name: "sign-runs", kind: SubKind::Enum { count: Ev::ALL.iter().map(|ev| 11 * ph_pool(*ev).len() as u64).sum() } },
             Sub { name: "long", kind: SubKind::Enum { count: super::long::all(true).len() as u64 * 4 } },
             Sub { name: "superscript-digits", kind: SubKind::Random { cases: tier.pick(100_000, 4_000_000), len: 40 } },
             Sub { name: "ws-random", kind: SubKind::Random { cases: tier.pick(400_000, 20_000_000), len: 160 } },
@@ -312,6 +313,23 @@ impl Prop for C13Prop {
         ]
     }
     fn gen_enum(&self, sub: &str, mut idx: u64, _tier: Tier) -> Option<Case> {
+        if sub == "sign-runs" {
+            // runs of prefix signs against the same run split by redundant brackets, for every pool placeholder
+            // (a run collapsed by parity skips the intermediate negations: -(-MIN) is a Float in eval_number)
+            let forms = [("--@", "-(-@)"), ("--@", "-(-(@))"), ("---@", "-(-(-@))"), ("-+-@", "-(+(-@))"), ("+-@", "+(-@)"), ("--@+1", "-(-@)+1"), ("2*--@", "2*-(-@)"), ("--@*3", "-(-@)*3"), ("----@", "-(-(-(-@)))"), ("--(@)", "-(-(@))"), ("-@", "-(@)")];
+            for ev in Ev::ALL {
+                let pool = ph_pool(ev);
+                let n = (forms.len() * pool.len()) as u64;
+                if idx < n {
+                    let (a, b) = forms[idx as usize % forms.len()];
+                    let mut case = Case::new(ev, a.to_string(), pool[idx as usize / forms.len()].clone());
+                    case.aux = vec![b.to_string(), "redundant brackets".to_string()];
+                    return Some(case);
+                }
+                idx -= n;
+            }
+            return None;
+        }
         if sub == "ws-keywords" {
             let (ev, stripped, with) = ws_keyword_cases().get(idx as usize)?.clone();
             let mut case = Case::new(ev, stripped, ph_pool(ev)[4 % ph_pool(ev).len()].clone());
